@@ -10,6 +10,7 @@ answers are the `Spec.*` walks over `Spec.parentOf ps`.
 -/
 import BV.C17.LemmasRange
 import BV.C17.LemmasHF
+import BV.C17.LemmasBits
 import BV.Generated.C17
 namespace BV.C17
 open Spec Lemmas
@@ -20,6 +21,14 @@ open Spec Lemmas
     terminate (its loop is run with fuel `height+1`, which the next theorem shows is never exhausted) -/
 theorem getAncestorHeight_lt (h : Nat) (hp : 0 < h) : getAncestorHeight h < h :=
   Lemmas.getAncestorHeight_lt h hp
+
+/-- `invertLowestOne` (`n & (n-1)`) clears the lowest set bit — so the skip height
+    `getAncestorHeight` is the height with its two lowest set bits cleared -/
+theorem invertLowestOne_clears_lowest_bit (m k : Nat) :
+    invertLowestOne ((2 * m + 1) * 2 ^ k) = (2 * m) * 2 ^ k ∧ invertLowestOne 0 = 0 :=
+  ⟨Lemmas.invertLowestOne_spec m k, rfl⟩
+
+example : getAncestorHeight 0b1011000 = 0b1000000 := by decide
 
 /-- node heights computed by `newBlockNode` are the naive depths -/
 theorem height_eq_depth (ps : List Nat) (hv : ValidFrom 1 ps) (n : Nat) (hn : n ≤ ps.length) :
